@@ -71,3 +71,45 @@ Theorem C05_no_hit_while_running_or_failed : forall r f now cached, r || f = tru
   CacheKeys.cache_hit r f now cached = false.
 Proof. exact no_hit_while_running_or_failed. Qed.
 Print Assumptions C05_no_hit_while_running_or_failed.
+
+(* ---- a Workflow of function nodes (CacheWf.v: the workflow's key over the unconnected child inputs, plus
+   one cache per child; the model the `wfd` histories are compared with, both twins) ------------------- *)
+From PW Require Import CacheWf CacheWfProofs.
+
+(* Inside one run of a workflow the children's caches are transparent: for EVERY number of children,
+   forward wiring, constants and state of outputs and flags that any history can reach, the body run with
+   caching on and with caching off do the same to everything but the remembered inputs, and end alike. *)
+Theorem C05_wf_children_caches_transparent : forall ks ops,
+  let st := wexec true (winit ks) ops in
+  let '(s1, r1) := body true st in
+  let '(s2, r2) := body false (er st) in
+  er s1 = s2 /\ r1 = r2.
+Proof.
+  intros ks ops st. pose proof (body_twin st (valid_reachable ks ops)) as H.
+  destruct (body true st) as [s1 r1]. destruct (body false (er st)) as [s2 r2]. destruct H as (E & R & _). split; assumption.
+Qed.
+Print Assumptions C05_wf_children_caches_transparent.
+
+(* Hence every run that is not served from the workflow's own key equals the uncached twin's run. *)
+Theorem C05_wf_run_equals_twin_on_miss_partial : forall ks ops,
+  let st := wexec true (winit ks) ops in
+  (match wcache st with Some k => key_eqb k (key st) | None => false end) = false ->
+  let '(s1, r1) := run_wf true st in
+  let '(s2, r2) := run_wf false (er st) in
+  er s1 = s2 /\ r1 = r2.
+Proof. intros ks ops st H. apply run_miss_twin; [apply valid_reachable | exact H]. Qed.
+Print Assumptions C05_wf_run_equals_twin_on_miss_partial.
+
+(* The full twin statement for runs served from the workflow's key is FALSE of the code in two ways
+   (known findings; the third way was the defect repaired by 4d10bb8, whose history now agrees). *)
+Theorem C05_wf_twin_refuted_rewire :
+  wtrace true (winit ks3) [WConnect 2 0; WRun; WConnect 2 1; WRun] <>
+  wtrace false (winit ks3) [WConnect 2 0; WRun; WConnect 2 1; WRun].
+Proof. exact wf_twin_refuted_rewire. Qed.
+Print Assumptions C05_wf_twin_refuted_rewire.
+
+Theorem C05_wf_twin_refuted_skipped_fetch :
+  wtrace true (winit ks3) [WConnect 1 0; WRun; WAssign 1 (-2); WRun; WDisconnect 1; WRun] <>
+  wtrace false (winit ks3) [WConnect 1 0; WRun; WAssign 1 (-2); WRun; WDisconnect 1; WRun].
+Proof. exact wf_twin_refuted_skipped_fetch. Qed.
+Print Assumptions C05_wf_twin_refuted_skipped_fetch.
